@@ -31,7 +31,7 @@ func init() {
 			for _, u := range enum.SeqUnits("bytes", "lex", len(enum.ByteAlphabets["lex"]), l, 2) {
 				us = append(us, core.Unit{Name: u})
 			}
-			for _, a := range []string{"paren", "range", "unary", "bool", "cmp"} {
+			for _, a := range []string{"paren", "range", "unary", "bool", "cmp", "like"} {
 				k := 6
 				if tier == "thorough" || a == "bool" {
 					k = 7
